@@ -27,7 +27,7 @@ from spyne import MethodContext
 CTX_EVENTS = ['method_context_created', 'method_context_closed', 'method_call',
               'method_return_object', 'method_exception_object',
               'method_return_document', 'method_exception_document',
-              'method_return_string', 'method_exception_string']
+              'method_return_string', 'method_exception_string', 'method_redirect']
 WSGI_EVENTS = ['wsgi_call', 'wsgi_return', 'wsgi_exception', 'wsgi_close']
 UNIT = 160         # bytes per abstract length unit of the wsgi scenarios
 SECRET = 'S3CR3T-7f3a9'
@@ -37,7 +37,10 @@ class Boom(Exception):
     pass
 
 
-def raise_outcome(o):
+def raise_outcome(o, state=None):
+    if o == 'redirect':
+        from spyne.server.http import HttpRedirect
+        raise HttpRedirect(state['ctx'], 'http://elsewhere.example/moved')
     if o == 'fault_client': raise Fault('Client.Custom', 'c')
     if o == 'fault_server': raise Fault('Server.Custom', 's')
     if o == 'fault_nf': raise ResourceNotFoundError('thing')
@@ -73,7 +76,7 @@ def build(s, log, state):
         @srpc(Integer, _returns=Integer, _evmgr=mev)
         def f(a):
             log.append(['fn', 'call'])
-            raise_outcome(inj['fn'])
+            raise_outcome(inj['fn'], state)
             state['fnOk'] = True
             if inj['ser'] == 'exc':
                 return 'not-an-int'   # unserialisable for the eager XML serialisers
@@ -82,7 +85,7 @@ def build(s, log, state):
         @srpc(Integer, _returns=(ByteArray if fam == 'http' else Iterable(Integer)), _evmgr=mev)
         def g(a):
             log.append(['fn', 'call'])
-            raise_outcome(inj['fn'])
+            raise_outcome(inj['fn'], state)
             state['fnOk'] = True
             if fam == 'http':
                 # HttpRpc out: a binary result produced lazily, chunk by chunk
@@ -311,7 +314,7 @@ def run(s):
         'tr': s['cfg']['tr'], 'rpc': s['req'].get('kind', 'rpc') == 'rpc', 'soap': s['cfg']['family'] in ('soap11', 'soap12'),
         'done': (not any(e[0] == 'escape' for e in log)) or (s['inj'].get('fin', 'ok') != 'ok' and log[-1] == ['io', 'iterclose']),
         'mayEscape': s['inj'].get('fin', 'ok') != 'ok', 'wcloseExpected': s['inj'].get('fin', 'ok') != 'raise_closed',
-        'fault': err is not None, 'fnOk': state['fnOk'],
+        'fault': err is not None, 'fnOk': state['fnOk'], 'redirect': s['inj']['fn'] == 'redirect' and ['fn', 'call'] in log,
         'infault': ierr is not None,
         # the method was matched: a well-formed request for an existing method that is not refused for its size
         'bound': False,
